@@ -91,11 +91,23 @@ func (x *Exec) stmt(s ast.Stmt, st *State, label string) outcome {
 				}
 			}
 			x.call(c, st)
+			// statement anchor: after the k-th call statement of this callee
+			// (as written: sort.Ints, visit, m.grow ...) in execution order
+			name := exprText(c.Fun)
+			k := x.nextOrd("anchor:call:" + x.cur().key + ":" + name)
+			x.anchoredAsserts(fmt.Sprintf("call:%s#%d", name, k), 0, st, s.End())
 			return outcome{normal: st}
 		}
 		x.unsupported(s, "expression statement")
 	case *ast.AssignStmt:
 		x.assignStmt(s, st)
+		// statement anchor: after the k-th assignment to a variable
+		for _, l := range s.Lhs {
+			if id, ok := l.(*ast.Ident); ok && id.Name != "_" {
+				k := x.nextOrd("anchor:assign:" + x.cur().key + ":" + id.Name)
+				x.anchoredAsserts(fmt.Sprintf("assign:%s#%d", id.Name, k), 0, st, s.End())
+			}
+		}
 		return outcome{normal: st}
 	case *ast.IncDecStmt:
 		v := x.expr(s.X, st)
@@ -664,6 +676,9 @@ func (x *Exec) invEnv(st *State, pos token.Pos, extra map[string]Val) *CEnv {
 		if v, ok := extra[name]; ok {
 			return v, true
 		}
+		if v, ok := fr.ghosts[name]; ok {
+			return v, true
+		}
 		if scope != nil {
 			if _, o := scope.LookupParent(name, pos); o != nil {
 				if v, ok := o.(*types.Var); ok && !(v.Pkg() != nil && v.Parent() == v.Pkg().Scope()) {
@@ -1033,6 +1048,22 @@ func (x *Exec) anchoredAsserts(anchor string, ord int, st *State, pos token.Pos)
 	if st == nil || fr.fc == nil {
 		return
 	}
+	// snapshots taken here: the value (for a slice: its contents as a
+	// sequence) is frozen and can be named in later assertions
+	for _, sn := range fr.fc.Snapshots {
+		if sn.Anchor != anchor {
+			continue
+		}
+		env := x.invEnv(st, pos, nil)
+		v := env.eval(sn.E)
+		if v.Ty != nil && v.Ty.K == TSlice {
+			v = env.asSeq(sn.E, v)
+		}
+		if fr.ghosts == nil {
+			fr.ghosts = map[string]Val{}
+		}
+		fr.ghosts[sn.Name] = v
+	}
 	for i, a := range fr.fc.Asserts {
 		if a.Anchor != anchor {
 			continue
@@ -1044,7 +1075,7 @@ func (x *Exec) anchoredAsserts(anchor string, ord int, st *State, pos token.Pos)
 		}
 		t := env.evalBool(a.Cl.E)
 		if a.Cl.Assumed {
-			x.noteTrusted(fmt.Sprintf("ASSUMED inside %s at the exit of loop %d, without proof: [%s] %s", fr.key, ord, label, a.Cl.Src))
+			x.noteTrusted(fmt.Sprintf("ASSUMED inside %s at %s, without proof: [%s] %s", fr.key, anchor, label, a.Cl.Src))
 			st.assume(t)
 			continue
 		}
@@ -1116,4 +1147,17 @@ func (x *Exec) openForall(env *CEnv, e *CExpr) (*CEnv, *Term) {
 		cur = cur.withBound(v.Name, Val{T: c, Ty: ty})
 	}
 	return cur, Implies(And(ranges...), cur.evalBool(e.Args[0]))
+}
+
+// exprText: source-like text of a callee expression (a.b.c).
+func exprText(e ast.Expr) string {
+	switch t := e.(type) {
+	case *ast.Ident:
+		return t.Name
+	case *ast.SelectorExpr:
+		return exprText(t.X) + "." + t.Sel.Name
+	case *ast.ParenExpr:
+		return exprText(t.X)
+	}
+	return "?"
 }
